@@ -53,10 +53,20 @@ pub enum Front {
 /// Diagnostics, then Sierra generation. Err = violation (signature, description).
 pub fn front(db: &RootDatabase, name: &str, source: &str, settings: &str) -> Result<Front, (String, String)> {
     let input = cairo::virtual_crate_input(name, source, settings, None);
+    // Diagnostics first, on their own: a salsa dependency-cycle panic raised while the diagnostics
+    // of self-referential (garbled) items are computed is the root-cause family C09 lists as known
+    // (queries without cycle recovery); it gets that family's signature here as well. The same
+    // panic during Sierra generation of an error-free program keeps the generic signature.
+    let (diags, err) = match panics::catch(|| cairo::has_errors(db, &input)) {
+        Ok(x) => x,
+        Err(p) if p.msg.starts_with("dependency graph cycle when querying ") => {
+            return Err(("salsa-cycle:diagnostics-of-self-referential-items".to_string(), format!("computing the diagnostics panicked at {}: {}", p.loc, truncate(&p.msg, 300))));
+        }
+        Err(p) => return Err((format!("panic@{}", p.loc), format!("the compiler panicked at {} while computing diagnostics: {}", p.loc, truncate(&p.msg, 300)))),
+    };
     let r = panics::catch(|| {
-        let (diags, err) = cairo::has_errors(db, &input);
         if err {
-            return Ok(Front::Rejected(diags));
+            return Ok(Front::Rejected(diags.clone()));
         }
         let id = cairo::crate_id(db, &input);
         match db.get_sierra_program(vec![id]) {
@@ -311,7 +321,18 @@ impl Prop for C08 {
             match mode {
                 0 | 1 => {
                     // Source selection: generated / snippet / ownership valid twin.
-                    let (origin, mut source, settings) = match ch.weighted(&[4, 4, 2]) {
+                    let (origin, mut source, settings) = match ch.weighted(&[4, 4, 2, 2]) {
+                        3 => {
+                            // Corelib-heavy functions (iterators, hashes, EC, dictionaries, containers
+                            // over non-copyable elements): one to three of them in one crate.
+                            use crate::gens::corelib_heavy as ch_;
+                            let k = 1 + ch.below(3);
+                            let mut picked: Vec<usize> = (0..k).map(|_| ch.below(ch_::FUNCS.len())).collect();
+                            picked.sort();
+                            picked.dedup();
+                            let body: String = picked.iter().map(|i| ch_::FUNCS[*i]).collect();
+                            ("corelib-heavy".to_string(), format!("{}{}", ch_::HEADER, body), cairo::SETTINGS_2024_07)
+                        }
                         0 => {
                             let c = execs::pick_case(ch, &[], 10, 0);
                             ("generated".to_string(), c.source, cairo::SETTINGS_2024_07)
@@ -348,7 +369,7 @@ impl Prop for C08 {
                             let st = cc.stats();
                             st.eval();
                             st.count(if mode == 1 { "accepted_mutants_compiled" } else { "unmutated_sources_compiled" });
-                            st.count(&format!("compiled:{}", if origin == "generated" || origin == "ownership" { origin.as_str() } else { "corpus" }));
+                            st.count(&format!("compiled:{}", if origin == "generated" || origin == "ownership" || origin == "corelib-heavy" { origin.as_str() } else { "corpus" }));
                             if nondefault {
                                 st.nontrivial(hash_str(&source) ^ hash_str(&cfg.describe()));
                             }
